@@ -423,7 +423,7 @@ fn gen_typed(rng: &mut Rng, t: &mut Tree, ico_out: &mut Option<Vec<u8>>, cur_out
 		// corruptions of the group header / entries
 		match rng.below(14) {
 			0 => { set.group[0] = 1; set.ico = None; },
-			1 => { set.group[2] = 3; set.ico = None; },
+			1 => { set.group[2] = *rng.pick(&[0u8, 0, 3, 4, 255]); if rng.chance(1, 4) { set.group[3] = 1; } set.ico = None; },   // idType outside {1, 2}: 0 is as invalid as 3
 			2 => { set.group.push(0); set.ico = None; },
 			3 => { if set.group.len() > 6 { set.group.pop(); set.ico = None; } },
 			4 => { if set.group.len() >= 20 { set.group[14..18].copy_from_slice(&rng.range(0, 60).to_le_bytes()[..4]); set.ico = None; } },
